@@ -71,12 +71,12 @@ public:
         {
             // the image is upside down
             offset = this->_info._offset
-                   + ( this->_info._height - 1 - pos ) * this->_pitch;
+                   + ( static_cast<long>( this->_info._height ) - 1 - pos ) * this->_pitch;
         }
         else
         {
             offset = this->_info._offset
-                   + pos * _pitch;
+                   + static_cast<long>( pos ) * _pitch;
         }
 
         this->_io_dev.seek( offset );
@@ -101,11 +101,11 @@ private:
     {
         if( this->_info._bits_per_pixel < 8 )
         {
-            _pitch = (( this->_info._width * this->_info._bits_per_pixel ) + 7 ) >> 3;
+            _pitch = (( static_cast<long>( this->_info._width ) * this->_info._bits_per_pixel ) + 7 ) >> 3;
         }
         else
         {
-            _pitch = this->_info._width * (( this->_info._bits_per_pixel + 7 ) >> 3);
+            _pitch = static_cast<long>( this->_info._width ) * (( this->_info._bits_per_pixel + 7 ) >> 3);
         }
 
         _pitch = (_pitch + 3) & ~3;
@@ -414,7 +414,8 @@ private:
 private:
 
     // the row pitch must be multiple of 4 bytes
-    int _pitch;
+    // 64 bit: width * bits_per_pixel of a crafted header does not fit an int
+    long _pitch;
 
     std::vector<byte_t> _buffer;
     detail::mirror_bits <std::vector<byte_t>, std::true_type> _mirror_bits;
